@@ -287,6 +287,8 @@ TFinalize ==
          hv2 == IF hasctx THEN HvAfterFinalize(st, S2, hv, w, e.sl, Ok(e)) ELSE hv IN
      /\ Check(ReplayNoEffect(st, S2, hv, w, "finalize", e.sl, e.res), "C03", "ReplayNoEffect", e, "finalize")
      /\ (Ok(e) /\ hasctx /\ e.stage = "S2") => FinalExact(e, st, S2)
+     /\ (Ok(e) /\ hasctx /\ e.stage = "S2") =>
+          Check(FinalizeOwnReservation(S2, w, e.sl), "C03", "FinalizeOwnReservation", e, "")
      /\ (hasctx /\ MustRefuseTtl(st, w, e.ttl)) => Check(~Ok(e) /\ S2.w[w] = st.w[w], "C17", "ExpiredRefused", e, "finalize")
      /\ (MustNotRefuseTtl(st, w, e.ttl)) => Check(e.res # "err:expired", "C17", "NotExpiredUntouched", e, "finalize")
      /\ (e.foreign /\ ~Ok(e)) => Check(ForeignOnlyAdds(st, S2, w, ""), "C07", "ForeignOnlyAdds", e,
